@@ -58,6 +58,7 @@ EXC = {
     'SkipTest': unittest.SkipTest, 'SystemExit': SystemExit,
     'KeyboardInterrupt': KeyboardInterrupt, 'OSError': OSError, 'TypeError': TypeError,
     'MemoryError': MemoryError, 'Unhashable': Unhashable, 'SyntaxError': _syntax_error,
+    'AttributeError': AttributeError, 'LookupError': LookupError, 'RuntimeError': RuntimeError,
 }
 
 # event flag bits
